@@ -138,7 +138,12 @@ pub fn check_case(c: &Case, rec: &mut Recorder, property: &str) -> Result<(), St
         rec.reject();
         return Ok(());
     }
-    let (text, model) = write_source(&v, c.a, &c.style);
+    let (mut text, model) = write_source(&v, c.a, &c.style);
+    // one more spelling of a YAML stream: a leading UTF-8 byte order mark
+    if c.a == Fmt::Yaml && c.style.tape.first().map_or(false, |b| b % 8 == 5) {
+        text.splice(0..0, [0xef, 0xbb, 0xbf]);
+        rec.class("yaml_source_with_utf8_bom");
+    }
     match read_any(&text, c.a) {
         Ok(d) if d.len() == 1 && d[0] == model => {}
         _ => {
@@ -170,6 +175,21 @@ pub fn check_case(c: &Case, rec: &mut Recorder, property: &str) -> Result<(), St
     rec.class(&format!("mode:{}", c.mode.class()));
     rec.sample(|| json!({"source": c.a.name(), "text": brief_bytes(&text), "mode": c.mode.class(), "detected": from.is_none()}));
     Ok(())
+}
+
+/// Collections and strings whose length sits on a boundary of a length encoding
+/// (MessagePack fix/8/16/32-bit headers) or of a size-hint / buffer heuristic.
+pub fn wide_values() -> Vec<(String, Val)> {
+    let mut out = vec![];
+    for n in [15usize, 16, 17, 31, 32, 33, 255, 256, 257, 4095, 4096, 4097, 5000, 65535, 65536, 65537] {
+        out.push((format!("seq_{}", n), Val::Map(vec![(Val::s("root"), Val::Seq((0..n).map(|i| Val::Int(i as i128 % 100)).collect()))])));
+        out.push((format!("map_{}", n), Val::Map((0..n).map(|i| (Val::Str(format!("k{}", i)), Val::Int(i as i128 % 7))).collect())));
+        out.push((format!("str_{}", n), Val::Map(vec![(Val::s("root"), Val::Str("s".repeat(n))), (Val::Str("k".repeat(n)), Val::Int(1))])));
+        if n >= 4095 && n <= 5000 {
+            out.push((format!("nested_seq_{}", n), Val::Map(vec![(Val::s("root"), Val::Seq(vec![Val::Seq((0..n).map(|i| Val::Bool(i % 2 == 0)).collect()), Val::Int(1)]))])));
+        }
+    }
+    out
 }
 
 /// Scalars worth sweeping exhaustively.
@@ -213,6 +233,7 @@ impl Check for C01 {
             Unit::enumerate("int_sweep", 4),
             Unit::gen("float_sweep", 8, tier.pick(20_000, 250_000)),
             Unit::enumerate("deep", 4),
+            Unit::enumerate("wide", 16),
         ]
     }
     fn required_classes(&self, _tier: Tier) -> Vec<&'static str> {
@@ -309,6 +330,23 @@ impl Check for C01 {
                                     rec.fail(m, c.to_json("float_sweep"));
                                     return;
                                 }
+                            }
+                        }
+                    }
+                }
+            }
+            "wide" => {
+                for (i, (name, v)) in wide_values().into_iter().enumerate() {
+                    if i as u32 % unit.shards != shard {
+                        continue;
+                    }
+                    for a in FORMATS {
+                        for mode in [Mode::Slice, Mode::Reader(crate::sio::Sched::Fixed(8192))] {
+                            let c = Case { v: v.clone(), a, style: Style::canonical(), mode, detect: false };
+                            rec.class("wide");
+                            if let Err(m) = check_case(&c, rec, "C01") {
+                                rec.fail(format!("{}: {}", name, m), c.to_json("wide"));
+                                return;
                             }
                         }
                     }
